@@ -5,6 +5,7 @@ machine, the password gate, and the CRC gate in front of delivery.
 -/
 import SevenZ.Model.Aes
 import SevenZ.Model.Listing
+import SevenZ.Model.Utf16
 namespace SevenZ.Impl
 
 /-- (encoded_header_mode, header_encryption) -/
@@ -50,5 +51,25 @@ def deliver (crc : Bytes → Nat) (digest : Option Nat) (g : Bytes) : Option Byt
   match digest with
   | none => some g
   | some d => if crc g = d then some g else none
+
+end SevenZ.Impl
+
+namespace SevenZ.Impl
+
+/-- what the 7zAES key derivation hashes in every round before the 8-byte round counter
+    (compressor.py:120,201 `calculate_key(password.encode("utf-16LE"), cycles, salt, "sha256")`,
+    helpers.py `_calculate_key*`: `salt + password`): the salt, then the UTF-16LE code units of the
+    password exactly as the caller gave it -- no normalisation, no terminator -/
+def keyMaterial (salt : Bytes) (pw : List Nat) : Bytes :=
+  salt ++ unitsToBytes (pw.flatMap unitsOf)
+
+/-- the derivation with the hash left abstract (`absorb`/`finish` over a state `σ`): `cycles = 0x3F` is the
+    unhashed form (first 32 bytes of salt ++ password ++ zeros); otherwise `2^cycles` rounds, each absorbing
+    the key material and the little-endian round counter -/
+def deriveKey {σ : Type} (init : σ) (absorb : σ → Bytes → σ) (finish : σ → Bytes)
+    (cycles : Nat) (salt : Bytes) (pw : List Nat) : Bytes :=
+  if cycles = 0x3F then (keyMaterial salt pw ++ List.replicate 32 0).take 32
+  else finish ((List.range (2 ^ cycles)).foldl
+    (fun st i => absorb st (keyMaterial salt pw ++ (List.range 8).map (fun k => i / 256 ^ k % 256))) init)
 
 end SevenZ.Impl
